@@ -159,7 +159,7 @@ theorem near_of_height (q n η s c : ℝ) (hq : 0.9966 ≤ q) (hq1 : q ≤ 1) (h
 
 /-- **|h| ≤ 100 km ⇒ round-trip error of the one-step algorithm < 1e-6 m** (exact arithmetic), for every ellipsoid with
 `6 371 000 ≤ a ≤ 6 378 140 m`, `0 ≤ e² ≤ 0.0067` and every geodetic latitude `φ ∈ [0, π/2)` (`s = sin φ`, `c = cos φ`;
-the southern hemisphere is the mirror image, `roundtrip_error_south_partial`) -/
+the southern hemisphere is the mirror image, `roundtrip_error_south`) -/
 theorem tangentialOffset_within_100km (E : Ellipsoid ℝ) (ha : 6371000 ≤ E.a) (ha' : E.a ≤ 6378140) (he0 : 0 ≤ E.e2)
     (he : E.e2 ≤ 0.0067) (s c h : ℝ) (hsc : s ^ 2 + c ^ 2 = 1) (hc : 0 < c) (hs : 0 ≤ s) (hh : |h| ≤ 100000) :
     |tangentialOffset E ((E.a / Real.sqrt (1 - E.e2 * s ^ 2) + h) * c)
